@@ -304,8 +304,65 @@ def rule_e(ctx):
     return r
 
 
+def rule_f(ctx):
+    r = RuleResult("C01-f", "indented-syntax comments: the distance `current_indentation - parent_indentation` used as a padding length cannot underflow — it is a "
+                   "saturating/checked subtraction, or every read_indentation() in the function happens only after peek_indentation() >= parent_indentation was established")
+    prog = ctx.prog()
+    n = 0
+    for b in prog.bodies.values():
+        if b.crate != "grass_compiler" or not b.file.endswith("parse/sass.rs") or b.is_closure():
+            continue
+        # plain usize subtractions whose left operand is the parser's current_indentation field
+        subs = []
+        for bb, i, pl, rv, st in b.assignments():
+            if rv.get("k") == "binop" and rv["op"].startswith("Sub"):
+                a = an.trace_operand(b, Operand(rv["a"]))
+                if a.root[0] == "arg" and a.proj and a.proj[-1] == "current_indentation":
+                    subs.append((bb, st, an.trace_operand(b, Operand(rv["b"]))))
+        if not subs:
+            continue
+        reads = [c for c in b.calls() if (c.name() or "").endswith("SassParser::read_indentation")]
+
+        def classify(kind, obj, body, sw):
+            if kind == "binop" and obj[0] in ("Lt", "Le", "Gt", "Ge", "Eq", "Ne"):
+                x, y = an.trace_operand(body, obj[1]), an.trace_operand(body, obj[2])
+                def is_peek(t):
+                    return t.root[0] == "call" and t.root[1].endswith("SassParser::peek_indentation")
+                op = obj[0]
+                if is_peek(y) and not is_peek(x):
+                    x, y = y, x
+                    op = {"Lt": "Gt", "Gt": "Lt", "Le": "Ge", "Ge": "Le"}.get(op, op)
+                if is_peek(x) and not is_peek(y):
+                    return psa.Pred(("PEEK", op, repr(y)), []), False
+            return None
+
+        for bb, st, rhs in subs:
+            n += 1
+            key = "%s|current_indentation-minus-%s" % (b.path, "parent" if rhs.root[0] != "const" else "const")
+            where = "%s:%d" % (b.file, st["span"]["l"])
+            bad = []
+            for c in reads:
+                vals, complete = psa.valuations_at(b, c.bb, classify)
+                ok = complete and bool(vals)
+                for v in vals:
+                    facts = {k[1]: val for k, val in v.items() if k[0] == "PEEK" and k[2] == repr(rhs)}
+                    ge = facts.get("Lt") is False or facts.get("Ge") is True or facts.get("Eq") is True or facts.get("Gt") is True or facts.get("Le") is False
+                    if not ge:
+                        ok = False
+                if not ok:
+                    bad.append(c.loc())
+            if not bad:
+                r.ok(key, how="every read_indentation() is preceded by peek_indentation() >= parent", reads=len(reads))
+            else:
+                r.violate(key, "%s subtracts the comment's own indentation from current_indentation (%s) although read_indentation() at %s can run when the next line is "
+                          "indented less than the comment: the usize subtraction underflows (panic in debug builds, an endless padding loop in release builds)"
+                          % (b.path, where, ", ".join(bad[:3])), where)
+    r.floor("current_indentation subtractions examined", n, 1)
+    return r
+
+
 import os as _os
 
 RULES = [rule_a, rule_b, rule_d]
 if _os.path.exists(_os.path.join(_os.path.dirname(__file__), "loops.py")):
-    RULES = [rule_a, rule_b, rule_c, rule_d, rule_e]
+    RULES = [rule_a, rule_b, rule_c, rule_d, rule_e, rule_f]
